@@ -21,6 +21,9 @@ type c12Case struct {
 	// and exited, the environment was reset - so the sequence starts with the invocation that starts that runtime (plain
 	// mode, no init/error: a failing re-initialisation answers differently from a first one, DESIGN section 8)
 	Warm bool `json:"warm,omitempty"`
+	// WarmServe (with Warm): before it dies the first runtime serves one invocation with a response and one with an
+	// error, so that every route has been used by a runtime of an earlier environment
+	WarmServe bool `json:"warmServe,omitempty"`
 }
 
 // ---- reference automaton
@@ -263,8 +266,16 @@ func (c *c12Case) plan() *c12Plan {
 	sc.Actors["runtime"] = []Script{{Steps: rt}}
 	sc.Driver = drv
 	if c.Warm && !c.Snapshot {
-		sc.Actors["runtime"] = []Script{{Steps: []Step{{Op: "rt.next"}, {Op: "exit", Code: 1}}}, {Steps: rt}}
-		sc.Driver = append([]Step{{Op: "invoke", Tag: "pre", Payload: &kit.Blob{Len: 5, Seed: 55, Kind: "ascii"}}}, drv...)
+		first := []Step{{Op: "rt.next"}, {Op: "exit", Code: 1}}
+		pre := []Step{{Op: "invoke", Tag: "pre", Payload: &kit.Blob{Len: 5, Seed: 55, Kind: "ascii"}}}
+		if c.WarmServe {
+			first = []Step{{Op: "rt.next"}, {Op: "rt.response", ID: "cur", BodyMode: "transform"}, {Op: "rt.next"}, {Op: "rt.error", ID: "cur", BodyMode: "transform", ErrType: "Function.Pre"},
+				{Op: "rt.next"}, {Op: "exit", Code: 1}}
+			pre = []Step{{Op: "invoke", Tag: "pre1", Payload: &kit.Blob{Len: 6, Seed: 56, Kind: "ascii"}}, {Op: "invoke", Tag: "pre2", Payload: &kit.Blob{Len: 7, Seed: 57, Kind: "ascii"}},
+				{Op: "invoke", Tag: "pre", Payload: &kit.Blob{Len: 5, Seed: 55, Kind: "ascii"}}}
+		}
+		sc.Actors["runtime"] = []Script{{Steps: first}, {Steps: rt}}
+		sc.Driver = append(pre, drv...)
 	}
 	return p
 }
@@ -281,6 +292,9 @@ func c12Check(c c12Case) (out kit.Outcome) {
 	out.Sample = map[string]any{"snapshot": c.Snapshot, "moves": c.Moves}
 	if c.Warm && !c.Snapshot {
 		out.Label("second-environment")
+		if c.WarmServe {
+			out.Label("second-environment:first-one-served")
+		}
 	}
 	if c.Snapshot {
 		out.Label("mode:snapshot")
@@ -415,6 +429,7 @@ func c12Gen(t *rapid.T) c12Case {
 	m := &c12Model{snapshot: c.Snapshot, st: "started", inv: "none"}
 	if !c.Snapshot && rapid.IntRange(0, 2).Draw(t, "warm") == 0 {
 		c.Warm = true
+		c.WarmServe = rapid.Bool().Draw(t, "warmServe")
 		c.Moves = []string{"INV"}
 		m.inv = "pending"
 	}
@@ -457,6 +472,7 @@ func c12Fixed() []c12Case {
 		{Moves: []string{"INV", "rnext", "next", "resp.cur", "next"}},
 		{Warm: true, Moves: []string{"INV", "resp.cur", "next", "next", "resp.garbage", "resp.cur", "next", "INV", "err.cur", "next"}},
 		{Warm: true, Moves: []string{"INV", "next", "err.cur", "resp.cur", "INV", "next", "resp.prev", "resp.cur"}},
+		{Warm: true, WarmServe: true, Moves: []string{"INV", "next", "resp.cur", "next", "INV", "err.cur", "next", "INV", "resp.cur", "next"}},
 		{Moves: []string{"initerr", "next", "initerr", "resp.cur", "unknown", "badmethod"}},
 		{Snapshot: true, Moves: []string{"rerr", "rnext", "initerr", "RESTORE", "resp.cur", "next", "INV", "resp.cur", "next"}},
 		{Snapshot: true, Moves: []string{"rnext", "RESTORE", "rerr", "next", "rnext"}},
